@@ -4,6 +4,8 @@ import (
 	"fmt"
 	"go/token"
 	"go/types"
+	"regexp"
+	"strconv"
 	"strings"
 
 	"golang.org/x/tools/go/ssa"
@@ -98,6 +100,12 @@ func (e *Exec) mapLen(st *State, m string) string {
 	return fmt.Sprintf("(select %s %s)", n, m)
 }
 
+// mapLenFacts: a map has at least 0 entries, the nil map none.
+func (e *Exec) mapLenFacts(st *State, m string) {
+	n := e.mapLen(st, m)
+	e.assume(st, and(e.le(e.sc.idxLit(0), n), imp(fmt.Sprintf("(= %s 0)", m), eq(n, e.sc.idxLit(0)))))
+}
+
 func (e *Exec) lookup(st *State, x *ssa.Lookup) {
 	xv := e.val(st, x.X)
 	iv := e.val(st, x.Index)
@@ -166,6 +174,21 @@ func (e *Exec) rangeInit(st *State, x *ssa.Range) {
 		e.memGet(st, key, e.sc.idx())
 		e.memSet(st, key, e.sc.idx(), e.sc.idxLit(0))
 	}
+	if mt, ok := x.X.Type().Underlying().(*types.Map); ok {
+		// map iteration: number of entries produced so far and the set of keys produced; the value of
+		// the iterator is the map's domain when the iteration starts
+		kn, kv := "IT|N:"+e.curFn.Name()+"."+x.Name(), "IT|V:"+e.curFn.Name()+"."+x.Name()
+		ks := e.mapKeySort(mt.Key())
+		vsrt := fmt.Sprintf("(Array %s Bool)", ks)
+		e.memGet(st, kn, e.sc.idx())
+		e.memSet(st, kn, e.sc.idx(), e.sc.idxLit(0))
+		e.memGet(st, kv, vsrt)
+		e.memSet(st, kv, vsrt, fmt.Sprintf("((as const %s) false)", vsrt))
+		dk, dsrt, _, _ := e.mapKeys(mt)
+		m := e.val(st, x.X)
+		e.set(st, x, Val{T: x.Type(), S: e.sc.define(x.Name()+".dom0", fmt.Sprintf("(Array %s Bool)", ks), fmt.Sprintf("(select %s %s)", e.memGet(st, dk, dsrt), m.S))})
+		return
+	}
 	e.set(st, x, Val{T: x.Type(), S: "0"})
 }
 
@@ -206,6 +229,26 @@ func (e *Exec) rangeNext(st *State, x *ssa.Next) {
 	kv := e.freshVal(st, x.Name()+".k", mt.Key())
 	dom, val := e.mapRead(st, mt, m.S, kv.S)
 	e.assume(st, imp(ok, dom))
+	// Go spec, "For statements with range clause": every entry is produced at most once; if the map
+	// is not changed during the iteration, every entry exactly once - so an iteration over an
+	// unchanged map continues exactly while fewer than len(m) entries have been produced.
+	if it := e.val(st, rng); strings.Contains(it.S, ".dom0") {
+		kn, kvs := "IT|N:"+e.curFn.Name()+"."+rng.Name(), "IT|V:"+e.curFn.Name()+"."+rng.Name()
+		ks := e.mapKeySort(mt.Key())
+		vsrt := fmt.Sprintf("(Array %s Bool)", ks)
+		cnt := e.memGet(st, kn, e.sc.idx())
+		vis := e.memGet(st, kvs, vsrt)
+		dk, dsrt, _, _ := e.mapKeys(mt)
+		kt := e.mapKeyTerm(mt.Key(), kv.S)
+		e.mapLenFacts(st, m.S)
+		unchanged := eq(fmt.Sprintf("(select %s %s)", e.memGet(st, dk, dsrt), m.S), it.S)
+		e.assume(st, imp(ok, not(fmt.Sprintf("(select %s %s)", vis, kt))))
+		e.assume(st, imp(unchanged, eq(ok, e.lt(cnt, e.mapLen(st, m.S)))))
+		e.assume(st, e.le(e.sc.idxLit(0), cnt))
+		e.memSet(st, kn, e.sc.idx(), ite(ok, e.add(cnt, e.sc.idxLit(1)), cnt))
+		e.memSet(st, kvs, vsrt, ite(ok, fmt.Sprintf("(store %s %s true)", vis, kt), vis))
+		e.libUsed["go-spec: a range over a map that is not changed produces each entry exactly once"] = true
+	}
 	vv := Val{T: mt.Elem(), S: e.sc.define(x.Name()+".v", e.sc.sortOf(mt.Elem()), val)}
 	e.assumeWF(st, vv)
 	_ = tup
@@ -529,6 +572,28 @@ func (e *Exec) doCall(fn *ssa.Function, fc *FuncContract, st *State, cc *ssa.Cal
 		}
 	}
 	cont, exits := e.doCallInner(fn, fc, st, cc, fv, args, dst, instr)
+	if cont && e.fc != nil && e.curFn == e.fn {
+		// `running expr`: a stepwise invariant of straight-line code - proved after every call of
+		// the function's own code (from the previous instance and the callee's contract) and kept as
+		// a fact; it turns one long chain of callee postconditions into short steps
+		if _, isBuiltin := cc.Value.(*ssa.Builtin); !isBuiltin {
+			for i, cl := range e.fc.Lists["running"] {
+				c := e.specEnvLocals(st)
+				c.where = fmt.Sprintf("%s:%d", cl.File, cl.Line)
+				t, err := c.evalBool(e.sct.subst(cl.Expr))
+				if err != nil {
+					e.note("CONTRACT-ERROR running: %v", err)
+					continue
+				}
+				saved := e.propsDef
+				if len(cl.Props) > 0 {
+					e.propsDef = cl.Props
+				}
+				e.check(st, "running", fmt.Sprintf("%d:%s", i, e.srcText(cc.Pos())), t, cc.Pos())
+				e.propsDef = saved
+			}
+		}
+	}
 	if cont {
 		for _, sn := range snaps {
 			c := e.specEnvLocals(st)
@@ -1117,6 +1182,7 @@ func (e *Exec) builtin(st *State, b *ssa.Builtin, cc *ssa.CallCommon, args []Val
 		case *types.Pointer:
 			term = e.sc.idxLit(u.Elem().Underlying().(*types.Array).Len())
 		case *types.Map:
+			e.mapLenFacts(st, v.S)
 			term = e.mapLen(st, v.S)
 		case *types.Chan:
 			term = e.sc.fresh("chanlen", e.sc.idx())
@@ -1240,6 +1306,11 @@ func (e *Exec) appendVals(st *State, elem types.Type, s, t Val, tIsString bool, 
 			idx, e.lt("k", start), na, oldArr, na))
 		e.assume(st, fmt.Sprintf("(forall ((k %s)) (! (=> (and %s %s) (= (select %s %s) (select %s %s))) :pattern ((select %s %s)) :pattern ((select %s %s))))",
 			idx, e.le(e.sc.idxLit(0), "k"), e.lt("k", tlen), na, e.add(start, "k"), tarr, e.add(toff, "k"), na, e.add(start, "k"), tarr, e.add(toff, "k")))
+		// ... and as a fact the engine instantiates itself at the skolem constants of quantified goals
+		e.sc.n++
+		qv := fmt.Sprintf("q.app.%d", e.sc.n)
+		e.sc.registerSkolemOnly(imp(st.pc, fmt.Sprintf("(forall ((%s %s)) (=> (and %s %s) (= (select %s %s) (select %s %s))))",
+			qv, idx, e.le(e.sc.idxLit(0), qv), e.lt(qv, tlen), na, e.add(start, qv), tarr, e.add(toff, qv))))
 		// the same fact by absolute position (matches every read of the new array)
 		e.assume(st, fmt.Sprintf("(forall ((k %s)) (! (=> (and %s %s) (= (select %s k) (select %s %s))) :pattern ((select %s k))))",
 			idx, e.le(start, "k"), e.lt("k", e.add(start, tlen)), na, tarr, e.add(toff, e.sub("k", start)), na))
@@ -1419,7 +1490,28 @@ func (e *Exec) beforeCall(st *State, name string, pos token.Pos, args []Val) {
 				c.vars[fmt.Sprintf("arg%d", ai)] = a
 			}
 		}
+		// in_loop: ordinal of the innermost loop of the function the call site is in (-1: none)
+		inLoop := -1
+		if e.curInstr != nil && e.curInstr.Block() != nil {
+			var best *loopInfo
+			for _, l := range findLoopsCached(e.fn) {
+				if l.body[e.curInstr.Block()] && (best == nil || len(l.body) < len(best.body)) {
+					best = l
+				}
+			}
+			if best != nil {
+				inLoop = best.ordinal
+			}
+		}
+		c.vars["in_loop"] = Val{T: tInt, S: e.sc.idxLit(int64(inLoop))}
 		c.where = fmt.Sprintf("%s:%d", cl.File, cl.Line)
+		// `in_loop == K ==> ...`: the clause is about the call sites in loop K; elsewhere it holds
+		// trivially (and its locals may be out of scope)
+		if m := inLoopGuard.FindStringSubmatch(strings.TrimSpace(cl.Expr[j+1:])); m != nil {
+			if k, _ := strconv.Atoi(m[1]); k != inLoop {
+				continue
+			}
+		}
 		if e.beforeHits == nil {
 			e.beforeHits = map[int]int{}
 		}
@@ -1433,10 +1525,18 @@ func (e *Exec) beforeCall(st *State, name string, pos token.Pos, args []Val) {
 		if len(cl.Props) > 0 {
 			e.propsDef = cl.Props
 		}
-		e.check(st, "before", fmt.Sprintf("%s.%d", name, i), t, pos)
+		if _, lean := e.fc.Flags["lean_before"]; lean {
+			// checked, but not added to the path condition (keeps the later obligations small when a
+			// function has many before-clauses that nothing afterwards depends on)
+			e.checkPost(st, "before", fmt.Sprintf("%s.%d", name, i), t, e.propsDef, e.eng.posString(pos))
+		} else {
+			e.check(st, "before", fmt.Sprintf("%s.%d", name, i), t, pos)
+		}
 		e.propsDef = saved
 	}
 }
+
+var inLoopGuard = regexp.MustCompile(`^in_loop == (-?[0-9]+) ==> `)
 
 // staticQualName: "<ReceiverTypeName>.<method>" of a method called statically (for count_calls and
 // before-clauses when several methods share a name, e.g. ring.removeHost / Session.removeHost).
